@@ -1347,6 +1347,35 @@ set_blob_attr(kdump_ctx_t *ctx, enum global_keyidx attr,
 	return KDUMP_OK;
 }
 
+/** Check that a piece of data lies within a dump file.
+ * @param ctx   Dump file object.
+ * @param fidx  File index.
+ * @param off   File offset.
+ * @param size  Size of the data.
+ * @param desc  Human-readable name of the data (for the error message).
+ * @returns     Error status.
+ *
+ * Data beyond end of file reads as zeroes, so variable-length data with
+ * a bogus size in its header would otherwise be processed for as long as
+ * memory lasts. Offsets in a flattened file are not file positions, so
+ * nothing can be checked there.
+ */
+kdump_status
+check_file_extent(kdump_ctx_t *ctx, unsigned fidx, off_t off, uint64_t size,
+		  const char *desc)
+{
+	off_t filesz;
+
+	if (flatmap_isflattened(ctx->shared->flatmap, fidx))
+		return KDUMP_OK;
+
+	filesz = ctx->shared->fcache->info[fidx].filesz;
+	if (off < 0 || off > filesz || size > (uint64_t) (filesz - off))
+		return set_error(ctx, KDUMP_ERR_CORRUPT,
+				 "%s extends beyond end of file", desc);
+	return KDUMP_OK;
+}
+
 /** Read a blob attribute from file.
  * @param ctx   Dump file object.
  * @param fidx  File index.
